@@ -210,7 +210,12 @@ def run(ctx):
     rng = random.Random(ctx.seed)
     traces = []
     for _ in range(30 if ctx.quick else 400):
-        traces.append(execute(random_history(rng, 25 if ctx.quick else 40), ["f", "g", "h"]))
+        rh = random_history(rng, 25 if ctx.quick else 40)
+        try:
+            traces.append(execute(rh, ["f", "g", "h"]))
+        except Exception as ex:  # an exception out of the engine on a legal history is a failure of the property
+            ops = [(e["op"], e["fn"], e["name"], e["tok"]) for e in rh]
+            ctx.violation(f"random-exc:{type(ex).__name__}", f"random history {ops} raised {ex!r}", {"hist": rh})
     clean = [[{k: e[k] for k in ("op", "fn", "name", "tok", "sig", "to")} for e in t if e["op"] != "error"] for t in traces]
     v = validate_traces("DispatcherTrace", "DispatcherTrace.cfg", clean, SD, ctx.out, tag="C18t")
     ctx.add_tlc(v.res, "DispatcherTrace")
@@ -232,8 +237,48 @@ def run(ctx):
                 ctx.violation("dup-delivery:random", "a callable received the same document twice", {"trace": t})
             if e["op"] == "error":
                 ctx.violation("token-count", e["what"], {"trace": t})
+    lifecycle_interplay(ctx)
     ctx.assumptions += ["documents reach the Dispatcher only through RunEngine.emit_sync (open_run/close_run used as emitters)",
                         "callables are plain functions (bound-method weak references are not exercised)"]
+
+
+def lifecycle_interplay(ctx):
+    """4. in-plan subscriptions against the engine's lifecycle (spec/re/RE.tla: S.tsubs, Deliver; REProps.tla: the C18 clauses).
+    Plans that subscribe / unsubscribe document consumers themselves are run on the real RunEngine under the single-step loop
+    with a pause / suspension / abort at every scheduling point, every caller decision, and a second call on the same engine;
+    each consumer logs what reaches it (`tdoc`).  TLC validates every trace against RE.tla (a delivery record is part of the
+    behaviour: one per live in-plan subscription after every document) and evaluates the C18 clauses on every event."""
+    from harness import recore
+    c = recore.build_corpus(ctx.tier, only="tmpsub")
+    tr = [t for t in c["traces"] if "tmpsub" in t["id"]]
+    d = ctx.out / "re"
+    d.mkdir(parents=True, exist_ok=True)
+    pv, mstats = recore.monitor_many([t["events"] for t in tr], d, "m")
+    rej, _, vstats, _ = recore.validate_many([t["events"] for t in tr], "full", d, "v")
+    ctx.cov["states"] += mstats["distinct"] + vstats["distinct"]
+    ctx.cov["transitions"] += mstats["generated"] + vstats["generated"]
+    ndeliv = sum(1 for t in tr for e in t["events"] if e[0] == "tdoc")
+    if not ndeliv:
+        ctx.machinery("no delivery to an in-plan consumer was recorded: the C18 lifecycle clauses were not exercised")
+    ctx.note(f"lifecycle interplay: {len(tr)} implementation traces with in-plan subscriptions ({ndeliv} deliveries logged), "
+             f"{len(rej)} not accepted by RE.tla")
+    ctx.cov["lifecycle_traces"] = len(tr)
+    ctx.cov["lifecycle_deliveries"] = ndeliv
+    ctx.cov["lifecycle_traces_not_conforming_to_spec"] = len(rej)
+    for t in tr:
+        ctx.case("re:" + t["id"], "|" in t["id"])
+    ctx.traces(len(tr) - len(rej))
+    if rej:
+        i, upto = sorted(rej.items())[0]
+        pe = [e for e in tr[i]["events"] if e[0] in recore.PROJECTIONS["full"]]
+        print(f"NOTE: {len(rej)} of {len(tr)} implementation traces with in-plan subscriptions are not accepted by RE.tla (spec drift), "
+              f"e.g. {tr[i]['id']} after {upto} of {len(pe)} events (next {pe[upto][:4] if upto < len(pe) else 'END'})")
+    for i, tags, reqs in pv:
+        for tag in tags:
+            if tag.startswith("C18:"):
+                t = tr[i]
+                ctx.violation(recore.signature(tag, reqs) + recore.sig_suffix(t), f"{tag} on implementation trace {t['id']} (outcomes {t['outcomes']})",
+                              {"scenario": t["id"], "tag": tag, "requests": reqs})
 
 
 def random_history(rng, n):
